@@ -13,6 +13,7 @@ CONSTANTS StrictA,    \* results and content must follow layer A (else the model
 Trace == ndJsonDeserialize("trace.ndjson")
 TraceT == Trace[1].cfg.T
 INSTANCE TreeInv WITH T <- TraceT
+MS == INSTANCE MapSlabTree WITH T <- TraceT     \* layer C (slab level): compared with the observed trees as drift, never a verdict
 
 VARIABLES l, dict, rid, typ, limit, committed, known, lcalls
 tvars == <<l, dict, rid, typ, limit, committed, known, lcalls>>
@@ -25,6 +26,26 @@ ObsDict(r) == LET a == Root(r).abs  n == Len(a) \div 2 IN
   [i \in 1..n |-> [k |-> a[2 * i - 1].v, v |-> a[2 * i].v, d |-> Root(r).kds[i]]]
 ObsPairs(r) == LET a == Root(r).abs IN {<<a[2 * i - 1].v, a[2 * i].v>> : i \in 1..(Len(a) \div 2)}
 ObsKeys(r) == LET a == Root(r).abs IN [i \in 1..(Len(a) \div 2) |-> a[2 * i - 1].v]
+
+\* observed forest -> model tree (only when there is no collision group anywhere)
+RECURSIVE NoGroups(_), TreeOfM(_)
+NoGroups(n) == IF n.k = "md" THEN n.els[1].t = "h" /\ \A i \in 1..Len(n.els[1].el) : n.els[1].el[i].t = "s"
+               ELSE \A i \in 1..Len(n.c) : NoGroups(n.c[i])
+TreeOfM(n) == IF n.k = "md"
+              THEN MS!Data([i \in 1..Len(n.els[1].el) |-> [d |-> n.els[1].hk[i], key |-> n.els[1].el[i].k[1].v, sz |-> n.els[1].el[i].sz]])
+              ELSE MS!Meta([i \in 1..Len(n.c) |-> TreeOfM(n.c[i])])
+ElemOfKey(t, kid) == LET f == MS!Flatten(t) IN f[CHOOSE i \in 1..Len(f) : f[i].key = kid]
+HasKeyT(t, kid) == LET f == MS!Flatten(t) IN \E i \in 1..Len(f) : f[i].key = kid
+LayerC(r, prev) ==
+  LET t == TreeOfM(Forest(prev))  cur == TreeOfM(Forest(r)) IN
+  CASE r.ev = "MSet" -> IF HasKeyT(cur, r.k.id) THEN MS!TSet(t, ElemOfKey(cur, r.k.id)) ELSE t
+    [] r.ev = "MRemove" -> IF HasKeyT(t, r.k.id) THEN MS!TRemove(t, ElemOfKey(t, r.k.id).d) ELSE t
+    [] r.ev = "MPop" -> MS!TPop(t)
+    [] OTHER -> t
+Drifted(r) ==
+  IF l = 1 \/ r.res.class # "ok" \/ Trace[l - 1].t # r.t \/ r.ev \notin {"MSet", "MRemove", "MPop"}
+     \/ Len(r.kd) # 4 \/ r.kd[1] >= 1000000 \/ ~NoGroups(Forest(Trace[l - 1])) \/ ~NoGroups(Forest(r)) THEN 0
+  ELSE IF MS!Shape(LayerC(r, Trace[l - 1])) = MS!Shape(TreeOfM(Forest(r))) THEN 0 ELSE 1
 
 Init == l = 1 /\ dict = <<>> /\ rid = 0 /\ typ = "" /\ limit = 255 /\ committed = <<>> /\ known = FALSE /\ lcalls = 0
 
@@ -83,6 +104,7 @@ Next ==
                          ELSE ObsDict(r))
             /\ UNCHANGED <<rid, typ, limit>>
        [] OTHER -> FALSE
+     /\ (Drifted(r) = 1 => PrintT(<<"DRIFT_AT", l, r.t, r.ev>>))   \* layer-C mismatch: reported, never a verdict
 
 Spec == Init /\ [][Next]_tvars
 
